@@ -89,6 +89,9 @@ func (k *Walk) HelperVal(call *ssa.Call) (map[string]bool, bool) {
 type inlined struct {
 	w     *Walker
 	atoms map[string]string // caller-side atom -> callee-side atom
+	// lookup helper compared with nil (`find(...) != nil`): the condition is true when the helper returns a non-nil
+	// value (nilCmp), negated for `== nil` (nilEq)
+	nilCmp, nilEq bool
 }
 
 // boolHelper recognises `if helper(args...)`: a static call of a module
@@ -98,6 +101,21 @@ func (w *Walker) boolHelper(v ssa.Value, depth int) *inlined {
 		return nil
 	}
 	call, ok := v.(*ssa.Call)
+	nilCmp, nilEq := false, false
+	if bo, isBO := v.(*ssa.BinOp); isBO && (bo.Op == token.EQL || bo.Op == token.NEQ) {
+		// `lookup(args...) != nil`: a helper that returns one of the things it searched, or nil
+		x, y := bo.X, bo.Y
+		if IsNilConst(x) {
+			x, y = y, x
+		}
+		if xc, isC := x.(*ssa.Call); isC && IsNilConst(y) {
+			if g := xc.Common().StaticCallee(); g != nil && InModule(g) && len(g.Blocks) > 0 && g.Signature.Results().Len() == 1 {
+				if _, isPtr := g.Signature.Results().At(0).Type().Underlying().(*types.Pointer); isPtr && lookupHelper(g) {
+					call, ok, nilCmp, nilEq = xc, true, true, bo.Op == token.EQL
+				}
+			}
+		}
+	}
 	if !ok {
 		return nil
 	}
@@ -122,14 +140,14 @@ func (w *Walker) boolHelper(v ssa.Value, depth int) *inlined {
 	if f == nil || !InModule(f) || len(f.Blocks) == 0 || f.Signature.Results().Len() != 1 || f == w.Fn {
 		return nil
 	}
-	if b, ok := f.Signature.Results().At(0).Type().Underlying().(*types.Basic); !ok || b.Kind() != types.Bool {
+	if b, ok := f.Signature.Results().At(0).Type().Underlying().(*types.Basic); !nilCmp && (!ok || b.Kind() != types.Bool) {
 		return nil
 	}
 	if _, trivial := TrivialGetter(f); trivial {
 		return nil
 	}
 	sw := &Walker{Fn: f, Atom: w.Atom}
-	il := &inlined{w: sw, atoms: map[string]string{}}
+	il := &inlined{w: sw, atoms: map[string]string{}, nilCmp: nilCmp, nilEq: nilEq}
 	subst := map[int]string{}
 	for i, a := range call.Common().Args {
 		subst[i] = Canon(a)
@@ -435,6 +453,11 @@ func (k *Walk) EvalBool(v ssa.Value) (val bool, ok bool) {
 		if k2.Undecided != "" || k2.Ret == nil || len(k2.Ret.Results) != 1 {
 			return false, false
 		}
+		if il.nilCmp {
+			// lookupHelper established: every return is the constant nil or a value the helper has dereferenced
+			nonNil := !IsNilConst(k2.Resolve(k2.Ret.Results[0]))
+			return nonNil != il.nilEq, true
+		}
 		return k2.EvalBool(k2.Resolve(k2.Ret.Results[0]))
 	}
 	name, aneg := k.W.Atom(v)
@@ -722,4 +745,49 @@ func indexOf(s, sub string) int {
 		}
 	}
 	return -1
+}
+
+// lookupHelper: every value g returns is the constant nil or a pointer that g
+// itself has dereferenced (a field of it was read), hence non-nil: whether the
+// result is nil is decided by which return is taken.
+func lookupHelper(g *ssa.Function) bool {
+	var ok func(v ssa.Value, depth int) bool
+	ok = func(v ssa.Value, depth int) bool {
+		v = Strip(v)
+		if IsNilConst(v) {
+			return true
+		}
+		if depth > 4 {
+			return false
+		}
+		if phi, isPhi := v.(*ssa.Phi); isPhi {
+			for _, e := range phi.Edges {
+				if !ok(e, depth+1) {
+					return false
+				}
+			}
+			return true
+		}
+		refs := v.Referrers()
+		if refs == nil {
+			return false
+		}
+		for _, r := range *refs {
+			if fa, isFA := r.(*ssa.FieldAddr); isFA && fa.X == v {
+				return true
+			}
+		}
+		return false
+	}
+	rets := Returns(g)
+	if len(rets) == 0 {
+		return false
+	}
+	for _, ret := range rets {
+		res := ReturnResults(ret)
+		if len(res) != 1 || !ok(res[0], 0) {
+			return false
+		}
+	}
+	return true
 }
